@@ -126,10 +126,10 @@ fn show_batch_del(r: &graph_engine::BatchDeleteResult) -> String {
         r.failed
             .iter()
             .map(|f| {
-                let c = if f.cause.contains("not found") || f.cause.contains("orrupt") {
-                    "not_found"
-                } else if f.cause.starts_with("Storage") {
+                let c = if f.cause.starts_with("Storage") {
                     "storage"
+                } else if f.cause.contains("not found") || f.cause.contains("orrupt") {
+                    "not_found"
                 } else {
                     "partial"
                 };
@@ -666,6 +666,38 @@ fn classify(kind: &str, detail: &str, ops: &[Op], im: &Image, edges: &HashMap<u6
         "entry_wrong_node" => "graph_engine.add_edge_to_list/entry_wrong_node".into(),
         "duplicate_entry" => "graph_engine.add_edge_to_list/duplicate_entry".into(),
         other => format!("graph_engine.store_image/{other}"),
+    }
+}
+
+/// Breaks that involve an id handed out during the concurrent phase (`> nn0` / `> ne0`):
+///  * a node created in the phase is an endpoint of the broken edge / owns the list: `create_node` stores
+///    the node record first and initialises `node:N:out` / `node:N:in` afterwards, wiping what a
+///    `create_edge` that already saw the node has appended;
+///  * an edge created in the phase that some thread deletes: `create_edge` stores the record first and
+///    appends the list entries afterwards, `delete_edge` in between removes the record only.
+fn classify_fresh(kind: &str, detail: &str, ops: &[Op], im: &Image, edges: &HashMap<u64, (u64, u64, bool)>, nn0: u64, ne0: u64) -> Option<String> {
+    let num_after = |word: &str| -> Option<u64> {
+        detail.split_whitespace().skip_while(|w| *w != word).nth(1).and_then(|s| s.trim_matches(|c: char| !c.is_ascii_digit()).parse().ok())
+    };
+    let edge_id = num_after("edge");
+    let owner: Option<u64> = detail.strip_prefix("node:").and_then(|r| r.split(':').next()).and_then(|n| n.parse().ok());
+    let ends = edge_id.and_then(|e| im.edges.get(&e).map(|r| (r.src, r.dst)).or_else(|| edges.get(&e).map(|(a, b, _)| (*a, *b))));
+    let creates_nodes = ops.iter().any(|o| matches!(o, Op::CNode { .. } | Op::BCN(_)));
+    let deleted = |e: u64| ops.iter().any(|o| matches!(o, Op::DEdge(x) if *x == e) || matches!(o, Op::BDE(v) if v.contains(&e)));
+    match kind {
+        "edge_not_listed" | "dangling_entry" | "edge_endpoint_missing" => {
+            if let Some(e) = edge_id {
+                if e > ne0 && deleted(e) {
+                    return Some("graph_engine.delete_edge/edge_still_being_created".into());
+                }
+            }
+            let fresh_node = owner.map_or(false, |n| n > nn0) || ends.map_or(false, |(a, b)| a > nn0 || b > nn0);
+            if creates_nodes && fresh_node {
+                return Some("graph_engine.create_node/lists_initialised_after_node_visible".into());
+            }
+            None
+        }
+        _ => None,
     }
 }
 
@@ -1265,6 +1297,7 @@ fn conc_case(
     rng: &mut Rng,
     per_class: &mut BTreeMap<String, u32>,
     expect_class: Option<&str>,
+    fresh: Option<(u64, u64)>,
 ) -> Vec<String> {
     let g = Arc::new(new_engine());
     m.ask("reset");
@@ -1334,6 +1367,24 @@ fn conc_case(
     // ---- oracle: WF at quiescence
     let mut classes = Vec::new();
     for (kind, detail) in &breaks {
+        // candidate classes (reported as observations until the coordinator has decided): breaks that
+        // involve a node / edge id handed out DURING the concurrent phase
+        if let Some(c) = fresh.and_then(|(nn0, ne0)| classify_fresh(kind, detail, &all_ops, &oc.image, &edges, nn0, ne0)) {
+            if !classes.contains(&c) {
+                classes.push(c.clone());
+                let n = per_class.entry(c.clone()).or_insert(0);
+                *n += 1;
+                rep.hit(&format!("candidate_wf_break.{c}"));
+                if *n <= 2 {
+                    let mut j = threads_json(setup, threads, &oc);
+                    j["stream"] = json!(stream);
+                    j["candidate_class"] = json!(c);
+                    j["what"] = json!(format!("graph not well-formed at quiescence: {kind}: {detail}"));
+                    rep.observe(j);
+                }
+            }
+            continue;
+        }
         let c = classify(kind, detail, &all_ops, &oc.image, &edges);
         if !classes.contains(&c) {
             classes.push(c.clone());
@@ -1405,6 +1456,49 @@ fn gen_conc(r: &mut Rng) -> (Vec<Op>, Vec<Vec<Op>>) {
         })
         .collect();
     (setup, threads)
+}
+
+/// programs that use ids handed out during the concurrent phase: new nodes `nn0+1..`, new edges `ne0+1..`
+/// (no delete_node: the node-deletion race has its own stream); batch calls included
+fn gen_fresh(r: &mut Rng) -> (Vec<Op>, Vec<Vec<Op>>, u64, u64) {
+    let nn = 2 + r.below(3);
+    let mut setup: Vec<Op> = (0..nn).map(|_| Op::CNode { l: r.below(2), v: 0 }).collect();
+    let ne = r.below(3);
+    for _ in 0..ne {
+        setup.push(Op::CEdge { a: 1 + r.below(nn), b: 1 + r.below(nn), d: r.chance(1, 2), ty: r.below(2), v: 0 });
+    }
+    let nt = 2 + r.below(4) as usize; // 2..=5
+    // half of the endpoints are ids the concurrent create_node calls are about to hand out
+    let node = |r: &mut Rng| if r.chance(1, 2) { nn + 1 + r.below(2) } else { 1 + r.below(nn + 3) };
+    let threads = (0..nt)
+        .map(|t| {
+            let k = 1 + r.below(2);
+            (0..k)
+                .map(|_| {
+                    let w = if t == 0 { 0 } else { r.below(100) };
+                    if w < 25 {
+                        Op::CNode { l: 0, v: 1 }
+                    } else if w < 32 {
+                        Op::BCN((0..1 + r.below(3)).map(|_| (1, 1)).collect())
+                    } else if w < 62 {
+                        let a = node(r);
+                        Op::CEdge { a, b: node(r), d: r.chance(1, 2), ty: r.below(2), v: 1 }
+                    } else if w < 70 {
+                        Op::BCE((0..1 + r.below(3)).map(|_| (1 + r.below(nn), node(r), r.chance(1, 2), 0, 1)).collect())
+                    } else if w < 85 {
+                        Op::DEdge(1 + r.below(ne + 3))
+                    } else if w < 90 {
+                        Op::BDE((0..1 + r.below(3)).map(|_| 1 + r.below(ne + 3)).collect())
+                    } else if w < 95 {
+                        Op::ALabel { n: node(r), l: 2 }
+                    } else {
+                        Op::UEdge { e: 1 + r.below(ne + 3), v: 7 }
+                    }
+                })
+                .collect()
+        })
+        .collect();
+    (setup, threads, nn, ne)
 }
 
 /// operation sets whose footprints (node keys, edge keys, adjacency-list keys) are pairwise disjoint:
@@ -1576,6 +1670,7 @@ fn main() {
         Sched::Exact(&[0, 0, 0, 1, 1, 1, 1, 1, 1, 1, 0, 0, 0, 0, 0]),
         &mut m, &mut rep, &mut wr, &mut per_class,
         Some("graph_engine.create_edge/edge_to_deleted_node"),
+        None,
     );
     // Props.update_edge_delete_edge_race_witness
     let n2e = vec![n2[0].clone(), n2[1].clone(), e12.clone()];
@@ -1586,6 +1681,7 @@ fn main() {
         Sched::Exact(&[0, 0, 0, 1, 1, 1, 1, 1, 1, 1, 0]),
         &mut m, &mut rep, &mut wr, &mut per_class,
         Some("graph_engine.update_edge/resurrects_deleted_edge"),
+        None,
     );
     // regression: Props.rmw_lost_update_witness / rmw_lost_removal_witness are schedules of the code
     // BEFORE the list lock; the scheduler follows them as far as the lock allows. Any WF break here is
@@ -1603,19 +1699,42 @@ fn main() {
     ];
     for (name, setup, threads, sc) in &regress {
         let mut none = BTreeMap::new();
-        let classes = conc_case(name, setup, threads, Sched::Prefer(sc), &mut m, &mut rep, &mut wr, &mut none, None);
+        let classes = conc_case(name, setup, threads, Sched::Prefer(sc), &mut m, &mut rep, &mut wr, &mut none, None, None);
         for c in classes {
             rep.hit(&format!("regress.broken.{c}"));
         }
     }
 
-    lap("witness/regress done");
+    // ---------------- (ii-a') ids handed out DURING the concurrent phase (guessed, or discovered by a scan):
+    //                  the two Lean witness schedules first, then seeded random programs x schedules.
+    //                  Breaks attributed to such ids are CANDIDATE classes: observations, not violations.
+    let mut cand: BTreeMap<String, u32> = BTreeMap::new();
+    // Props.create_node_create_edge_race_witness
+    conc_case(
+        "witness.create_node_vs_create_edge",
+        &n2,
+        &[vec![Op::CNode { l: 0, v: 0 }], vec![Op::CEdge { a: 1, b: 3, d: true, ty: 0, v: 0 }]],
+        Sched::Exact(&[0, 0, 1, 1, 1, 1, 1, 1, 1, 1, 0, 0]),
+        &mut m, &mut rep, &mut wr, &mut cand,
+        Some("graph_engine.create_node/lists_initialised_after_node_visible"),
+        Some((2, 0)),
+    );
+    // Props.delete_edge_of_edge_in_creation_race_witness needs delete_edge to take the lock of the first
+    // list between create_edge's `store.put edge:E` and its acquisition of that lock: the acquisition is
+    // not a yield point (the model takes locks lazily and therefore has that interleaving), so the
+    // scheduler cannot replay it; the class can only show up in conc.fresh_ids through other orders.
+    let mut r = root.fork("conc.fresh_ids");
+    for _ in 0..60 * scale {
+        let (setup, threads, nn0, ne0) = gen_fresh(&mut r);
+        conc_case("conc.fresh_ids", &setup, &threads, Sched::Random, &mut m, &mut rep, &mut r, &mut cand, None, Some((nn0, ne0)));
+    }
+    lap("witness/regress/fresh done");
     // ---------------- (ii-b) disjoint footprints: the regime of `quiescent_wf_partial`
     let mut r = root.fork("conc.disjoint");
     for _ in 0..150 * scale {
         let (setup, threads) = gen_disjoint(&mut r);
         let mut none = BTreeMap::new();
-        let classes = conc_case("conc.disjoint", &setup, &threads, Sched::Random, &mut m, &mut rep, &mut r, &mut none, None);
+        let classes = conc_case("conc.disjoint", &setup, &threads, Sched::Random, &mut m, &mut rep, &mut r, &mut none, None, None);
         for c in classes {
             rep.violation("graph_engine.disjoint_footprints/breaks_wf", &format!("WF broken although the operations touch disjoint keys ({c})"), json!({"setup": ops_json(&setup)}));
         }
@@ -1626,7 +1745,7 @@ fn main() {
     let mut r = root.fork("conc.random");
     for i in 0..600 * scale {
         let (setup, threads) = gen_conc(&mut r);
-        conc_case("conc.random", &setup, &threads, Sched::Random, &mut m, &mut rep, &mut r, &mut per_class, None);
+        conc_case("conc.random", &setup, &threads, Sched::Random, &mut m, &mut rep, &mut r, &mut per_class, None, None);
         if i < 2 {
             rep.sample(json!({"stream": "conc.random", "setup": ops_json(&setup), "threads": threads.iter().map(|t| ops_json(t)).collect::<Vec<_>>()}));
         }
@@ -1643,6 +1762,8 @@ fn main() {
         "seq.batch_update_nodes.ok", "seq.batch_update_nodes.err_batch_invalid", "seq.reopen.ok",
         "seq.big_hub.batch_create_nodes_parallel_path",
         "conc.threads.2", "conc.threads.8",
+        "witness_reproduced.graph_engine.create_node/lists_initialised_after_node_visible",
+
     ]
     .iter()
     .map(|s| s.to_string())
